@@ -20,6 +20,7 @@ from ..align import (IN, Align, Arr, Opaque, Scalar, fmt_space, same_space,
                      sorted_dir)
 from ..core import AnalysisError
 from ..defuse import DefUse, Terms, show, specialise, walk_term
+from ..defuse import key as tkey
 from ..tutil import (Sym, TTUnknown, find_calls, is_flip, lin, np_call,
                      strip_conv, strip_flips, tt_eval)
 
@@ -493,7 +494,7 @@ def _check_fdr2qvalue(ctx, f):
     ok_iter = False
     c = np_call(it)
     if c and c[0] == "builtins.range" and len(c[1]) == 1:
-        txt = show(strip_conv(c[1][0]), 200)
+        txt = tkey(strip_conv(c[1][0]), 200)
         if txt in (f"{p_met}.shape[0]", f"len({p_met})", f"{p_cnt}.shape[0]",
                    f"len({p_cnt})"):
             ok_iter = True
@@ -539,7 +540,7 @@ def _check_fdr2qvalue(ctx, f):
         lo, hi = grp_t[1], grp_t[2]
     ctx.require(lo is not None,
                 f"{F2Q}: group index is not a slice: {show(grp_t, 100)}")
-    akey = (lambda x: show(x, 400))
+    akey = (lambda x: tkey(x, 400))
     diff = lin(hi, akey) + lin(lo, akey).scale(-1)
     cnt_ok = False
     if len(diff.atoms) == 1 and diff.const == 0:
@@ -800,7 +801,7 @@ def _check_update_labels(ctx):
         b2[k] = v
     mp = [p for p in m.params if p != "self"]
     ok = (b2.get(p_scores) == ("param", mp[0])
-          and show(b2.get(p_targets, ("const", None))) == "self.targets"
+          and tkey(b2.get(p_targets, ("const", None))) == "self.targets"
           and b2.get(p_fdr) == ("param", mp[1])
           and b2.get(p_desc) == ("param", mp[2]))
     ctx.check(ok, "C01d-method-forwarding", m,
